@@ -247,6 +247,29 @@ pub fn c09(tier: &str, seed: u64) {
       let _ = srv.eval(&p, md, v);
     });
   }
+  // 4b. ... and on a server with a HISTORY: registered tags that were punctured (still listed in the
+  //     public key), punctured twice, unregistered tags punctured - every request is answered or
+  //     refused through the result
+  {
+    let mut srv = Server::new(vec![0, 1, 7, 8, 255]).unwrap();
+    let mut log = String::from("new:0001070 8ff");
+    for (i, md) in [7u8, 7, 200, 255, 0].iter().enumerate() {
+      let s2 = std::panic::AssertUnwindSafe(&mut srv);
+      if std::panic::catch_unwind(move || { let s2 = s2; let _ = s2.0.puncture(*md); }).is_err() {
+        fail("panic_on_received_data", &[("entry_point", "Server::puncture".into()), ("history", log.clone()), ("md", md.to_string())]);
+      }
+      log.push_str(&format!(" pu:{}", md));
+      for q in [0u8, 1, 7, 8, 200, 255] {
+        for v in [false, true] {
+          let p = if (i + q as usize) % 3 == 0 { Point::from(&[0xffu8; 32][..]) } else { Client::blind(&[q]).0 };
+          let s3 = srv.clone();
+          no_panic("Server::eval", &[("history", log.clone()), ("md", q.to_string()), ("verifiable", v.to_string())], move || {
+            let _ = s3.eval(&p, q, v);
+          });
+        }
+      }
+    }
+  }
   // 5. verification: undecodable group elements in every position of evaluation / public key,
   //    missing proofs
   let (blinded, _r) = Client::blind(b"input");
